@@ -192,6 +192,15 @@ pub fn json_to_value(j: &J) -> R<Value> {
         "Unit" => Value::unit(),
         "Boolean" => Value::boolean(j["v"].as_bool().ok_or("bool")?),
         "Integer" => Value::integer(j_i64(&j["v"])?),
+        "Enum" => {
+            let v: R<Vec<(String, i64)>> = j["vals"]
+                .as_array()
+                .ok_or("vals")?
+                .iter()
+                .map(|p| Ok((p[0].as_str().ok_or("name")?.to_string(), j_i64(&p[1])?)))
+                .collect();
+            Value::enumeration(j_i64(&j["v"])?, v?)
+        }
         "Float" => Value::float(j_f64(&j["v"])?),
         "Text" => Value::text(j["v"].as_str().ok_or("text")?),
         "Date" => Value::date(num_date(j_i64(&j["v"])?)?),
